@@ -555,6 +555,61 @@ def build_builder(tree):
     return b.to_circuit()
 
 
+def build_builder_incremental(tree):
+    """CircuitBuilder used the way an interactive session uses it: the (outer) builder is converted / printed while it
+    is still being filled, nested builders gain items afterwards, and finally a parameter of an element the builder
+    holds is changed and the builder is converted again.  Returns (circuit after the build, circuit after the change,
+    index (in depth-first leaf order of the top-level tree) of the element that was changed or None, key, new value)."""
+    from pyimpspec import CircuitBuilder
+
+    held = []
+    outer = []
+
+    def probe():
+        # conversions in the middle of the build must not influence later conversions
+        try:
+            outer[0].to_string()
+            outer[0].to_string(3)
+            outer[0].to_circuit()
+        except Exception:
+            pass  # an incomplete builder may legitimately refuse (e.g. a parallel with one item so far)
+
+    def fill(b, node):
+        n = len(node["c"])
+        for i, c in enumerate(node["c"]):
+            if c["t"] == "E":
+                e = build_element(c)
+                held.append(e)
+                b.add(e)
+            elif c["t"] == "S":
+                with b.series() as s_:
+                    fill(s_, c)
+            else:
+                with b.parallel() as p_:
+                    fill(p_, c)
+            if i == n // 2:
+                probe()
+
+    assert tree["t"] == "S"
+    with CircuitBuilder() as b:
+        outer.append(b)
+        fill(b, tree)
+    first = b.to_circuit()
+    changed = (None, None, None)
+    for e in held[::-1]:
+        for k, v in e.get_values().items():
+            trial = v * 1.5 if v != 0 else 0.25
+            trial = float("%.12E" % trial)
+            if e.get_lower_limit(k) <= trial <= e.get_upper_limit(k) and trial != v and math.isfinite(trial):
+                e.set_values(k, trial)
+                changed = (held.index(e), k, trial)
+                break
+        if changed[0] is not None:
+            break
+    second = b.to_circuit() if changed[0] is not None else None
+    return first, second, changed
+
+
 def builder_ok(tree):
     """CircuitBuilder refuses empty series and <2-child parallels by contract."""
     def ok(n):
